@@ -134,7 +134,7 @@ func wideBytesCase(r *gen.Rand, i int64) ([]byte, string) {
 
 // C08: scalar encodings.
 func C08(c *Ctx) {
-	n := c.N(2000000, 100000000)
+	n := c.N(2000000, 800000000)
 	for i := int64(0); i < n; i++ {
 		if !c.Mine(i) {
 			continue
